@@ -196,6 +196,13 @@ class Date:
         # Retrieve EOP for the given date and store
         eop = EopDb.get(mjd)
 
+        if scale.name != "UTC":
+            # The EOP tables are indexed by UTC day. Near midnight the day number of the
+            # clock reading in another scale is not the UTC day: look the record up again
+            mjd_utc = mjd + scale.offset(mjd, "UTC", eop) / 86400.0
+            if int(mjd_utc) != int(mjd):
+                eop = EopDb.get(mjd_utc)
+
         # Retrieve the offset from REF_SCALE for the current date
         offset = scale.offset(mjd, self.REF_SCALE, eop)
 
